@@ -3,3 +3,4 @@ WebSocket send side (Properties/C06Ws) and the two layers together (Properties/C
 import PahoProofs.Properties.C10
 import PahoProofs.Properties.C06Ws
 import PahoProofs.Properties.C06WsWriter
+import PahoProofs.Properties.C06TcpWriter
